@@ -15,3 +15,6 @@ import Cutadapt.Proofs.StatsMergeMain
 #print axioms Cutadapt.C06.isSum_zero_left
 #print axioms Cutadapt.C06.isSum_zero_right
 #print axioms Cutadapt.C06.statistics_merge_comm_assoc
+#print axioms Cutadapt.C06.appliedTo_append
+#print axioms Cutadapt.C06.merged_adapter_statistics
+#print axioms Cutadapt.C06.mergeAdapterStats_of_runs
